@@ -116,3 +116,23 @@ Proof. vm_compute. reflexivity. Qed.
     critical section never waits. *)
 Lemma gen_server_nonblocking : gen_server_blocking = [].
 Proof. reflexivity. Qed.
+
+(** ** The kick closes the websocket (Sni/RegistryKick.v)
+
+    The goroutine [upgrade] starts for the client it displaces calls exactly
+    one method of it, and that method ends in an unconditional
+    [c.conn.Close()] (a top-level statement of its body): whatever the peer
+    does, the kicked connection's websocket is closed when the graceful part
+    is over. *)
+Definition gen_kick_forces : bool :=
+  match gen_kick_calls with
+  | [c] => existsb (String.eqb c) gen_conn_closing_methods
+  | _ => false
+  end.
+
+Lemma gen_kick_forces_close : gen_kick_forces = true.
+Proof. vm_compute. reflexivity. Qed.
+
+Lemma gen_kick_calls_Close :
+  gen_kick_calls = ["old.Close"] /\ gen_conn_closing_methods = ["old.Close"].
+Proof. vm_compute. split; reflexivity. Qed.
